@@ -290,7 +290,8 @@ impl<'a> Printer<'a> {
             }
             self.osp();
             self.tok("@");
-            self.osp();
+            // `@name` is one annotation token: a blank must follow the `@` of a modifier
+            self.sp();
         }
     }
     fn block(&mut self, ss: &[MStmt]) {
@@ -939,7 +940,7 @@ impl<'a> Gen<'a> {
                 }
                 MStmt::Empty
             }
-            17 if env.global && !env.qregs.is_empty() => {
+            17 if env.global && !env.qregs.is_empty() && !self.sema_safe => {
                 let (r, w) = self.pick(&env.qregs);
                 let name = env.fresh("al");
                 let rhs = MExpr::Index(Box::new(MExpr::Ident(r)), vec![MExpr::Int(self.rng.below(w))]);
